@@ -41,10 +41,15 @@ def byteses(max_size=12):
     return st.one_of(st.sampled_from(BYTES_BOUNDARY), st.binary(max_size=max_size))
 
 
-def scalars():
-    return st.one_of(
-        st.none(), st.booleans(), ints(), floats(), texts(), byteses()
-    )
+def scalars(extra=False):
+    base = [st.none(), st.booleans(), ints(), floats(), texts(), byteses()]
+    if extra:
+        # other "numbers"/"bytes" pickle encodes through builtins calls (complex, bytearray)
+        base += [
+            st.tuples(st.sampled_from(FLOAT_BOUNDARY), st.sampled_from(FLOAT_BOUNDARY)).map(lambda t: complex(*t)),
+            byteses().map(bytearray),
+        ]
+    return st.one_of(*base)
 
 
 def hashables(depth=2):
@@ -60,7 +65,7 @@ def hashables(depth=2):
     )
 
 
-def plain_values(with_sets=True, max_leaves=12):
+def plain_values(with_sets=True, max_leaves=12, extra_scalars=False):
     """Acyclic plain data: scalars, lists, tuples (0-5), dicts, sets, frozensets,
     with shared sub-objects."""
 
@@ -77,7 +82,7 @@ def plain_values(with_sets=True, max_leaves=12):
             opts.append(st.frozensets(hashables(1), max_size=4))
         return st.one_of(*opts)
 
-    return st.recursive(scalars(), extend, max_leaves=max_leaves)
+    return st.recursive(scalars(extra=extra_scalars), extend, max_leaves=max_leaves)
 
 
 def instance_values():
@@ -138,6 +143,8 @@ def deep_equal(a, b):
             if not deep_equal(ka, kb) or not deep_equal(va, vb):
                 return False
         return True
+    if isinstance(a, complex):
+        return deep_equal(a.real, b.real) and deep_equal(a.imag, b.imag)
     if isinstance(a, (set, frozenset)):
         if len(a) != len(b) or a != b:
             return False
